@@ -258,6 +258,24 @@ func c03Witnesses(c *core.Ctx, pattern string, matchCase bool) []string {
 
 func c03Run(c *core.Ctx, idx int) {
 	pattern, enumerated := c03PatternOf(c, idx)
+	if !enumerated && idx%9 == 4 {
+		// Twin patterns whose whole texts collide under FastHash, compiled one
+		// after the other in this process.
+		pre := []string{"||example-a", "/banner_a", "|http://cdn-", "ads.a"}[c.Rng.Intn(4)]
+		suf := []string{".com^", "/*", "*.js|", "^"}[c.Rng.Intn(4)]
+		if groups := gen.CollidingTails(pre); len(groups) > 0 {
+			for _, t := range groups[c.Rng.Intn(len(groups))] {
+				c03Check(c, idx, pre+t+suf, false)
+			}
+			c.Event("hash_colliding_twin_groups", 1)
+
+			return
+		}
+	}
+	c03Check(c, idx, pattern, enumerated)
+}
+
+func c03Check(c *core.Ctx, idx int, pattern string, enumerated bool) {
 	if len(pattern) > 1 && pattern[0] == '/' && pattern[len(pattern)-1] == '/' {
 		c.Event("excluded_regex_shape", 1)
 
